@@ -398,6 +398,9 @@ SEARCHERS = {'inflection': search_inflection, 'paths': search_paths, 'paths_esm'
 
 def search(pid, unit, failure, seed):
     f = SEARCHERS.get(unit)
+    if unit == 'lexical' and pid == 'C09':
+        f = search_attrs   # to_ts_ident feeds the renaming rules: names of really derived types against serde_json's keys
+        failure = dict(failure, only_for='C09')
     if not f:
         return None
     if pid and not failure.get('only_for') and not re.match(r'C\d+', str(failure.get('obligation', '')).split('.')[0]):
@@ -444,6 +447,8 @@ def run_named(spec):
     name, _, feats = name.partition('@')
     feats = tuple(f for f in feats.split(',') if f)
     o = batch([{'op': name}], feats)[0]
+    if o.get('undetermined'):
+        raise RuntimeError(o['undetermined'])
     for c in o.get('cases', []):
         if not c.get('agree', True):
             w = {'request': {'op': name}, 'result': c}
